@@ -21,7 +21,11 @@ use std::mem;
 use std::sync::Arc;
 use std::task::Waker;
 
+#[cfg(not(datafusion_verif))]
 use parking_lot::Mutex;
+
+#[cfg(datafusion_verif)]
+use crate::verif_shims::Mutex;
 
 use arrow::datatypes::SchemaRef;
 use arrow::record_batch::RecordBatch;
